@@ -298,6 +298,13 @@ rename("C18-benign-rename-fn-new-with-tries", SLA, [("new_with_tries", "open_ret
 rename("C16-benign-rename-fn-new-with-tries", SLA, [("new_with_tries", "open_retrying")], "C16")
 rename("C19-benign-rename-fn-shr-and-cmp", GR, [("fn shr(", "fn shift_right("), ("shr(a, b)", "shift_right(a, b)"), ("u_lt(", "signed_lt("), ("u_gte(", "signed_ge(")], "C19")
 rename("C20-benign-rename-fn-shr-and-cmp", GR, [("fn shr(", "fn shift_right("), ("shr(a, b)", "shift_right(a, b)"), ("u_lt(", "signed_lt("), ("u_gte(", "signed_ge(")], "C20")
+# renames of private FIELDS
+rename("C15-benign-rename-field-flags-optimal", OMT, [("cached_leaves_indices", "occupancy")], "C15")
+rename("C06-benign-rename-field-flags-optimal", OMT, [("cached_leaves_indices", "occupancy")], "C06")
+rename("C06-benign-rename-field-next-index-full", FMT, [("next_index", "high_water")], "C06")
+rename("C15-benign-rename-field-next-index-full", FMT, [("next_index", "high_water")], "C15")
+rename("C08-benign-rename-field-flags-pm", PMA, [("cached_leaves_indices", "occupancy")], "C08")
+rename("C16-benign-rename-field-metadata-pm", PMA, [("self.metadata", "self.meta_bytes"), ("    metadata: Vec<u8>,", "    meta_bytes: Vec<u8>,"), ("            metadata: Vec::new(),", "            meta_bytes: Vec::new(),")], "C16")
 m("C10-verify-len-guard-rejects-exact", PUB, "        if input_byte.len() < 128 + 5 * fr_byte_size() {\n            return Err(Report::msg(\"input data is too short\"));", "        if input_byte.len() <= 128 + 5 * fr_byte_size() {\n            return Err(Report::msg(\"input data is too short\"));", "C10")
 m("C10-vec-u8-guard-rejects-exact", UT, "    if len > input.len() - 8 {\n        return Err(Report::msg(\"vector length exceeds input data\"));", "    if len >= input.len() - 8 {\n        return Err(Report::msg(\"vector length exceeds input data\"));", "C10")
 
